@@ -102,6 +102,40 @@ func runC19(p *eng.Prog, r *eng.Report, tier string) {
 	c13Discipline(c, "C19.2", c19Pkgs)
 	c19Delegation(c)
 	decoderSkipTypestate(c, "C19.9", inC19, 8)
+	// C19.11 tokens of an xml.Decoder are not replayed to the wire as they
+	// come: the decoder reports an element's namespace in its name AND as an
+	// xmlns attribute, the encoder writes one for the name again, and the
+	// element goes out with a repeated attribute (not well-formed; one more on
+	// every round trip). A decoder used as a payload passes an attribute filter.
+	nrep := 0
+	for _, f := range c.allFns() {
+		if !inC19(f) || f.Body == nil {
+			continue
+		}
+		for _, cl := range f.Calls("encoding/xml.NewDecoder") {
+			par := f.Graph().Parent(cl)
+			pc, isCall := par.(*ast.CallExpr)
+			if !isCall {
+				continue
+			}
+			cid := f.CalleeID(pc)
+			if !strings.HasPrefix(cid, "mellium.im/xmlstream.") {
+				continue
+			}
+			nrep++
+			// xmlstream.RemoveAttr(pred)(decoder): the parent call's function is itself a RemoveAttr call
+			filtered := false
+			if inner, ok := ast.Unparen(pc.Fun).(*ast.CallExpr); ok && f.CalleeID(inner) == "mellium.im/xmlstream.RemoveAttr" {
+				filtered = true
+			}
+			c.r.Check("C19.11", f, "decoder replayed as a payload", "K: a decoder whose tokens are written to the wire is wrapped in an attribute filter (xmlstream.RemoveAttr) that drops the xmlns the encoder writes anyway", cl.Pos(), filtered, "tokens of xml.NewDecoder go to "+cid+" unfiltered: namespaced elements are written with a duplicate xmlns attribute")
+		}
+	}
+	c.r.Note("C19.11: %d decoders used as payload readers examined", nrep)
+	nloop := decoderLoopConsumes(c, "C19.10", inC19)
+	c.r.Note("C19.10: %d start-element edges in token loops examined", nloop)
+	ntag := tagNamespaceAgreement(c, "C19.3", inC19)
+	c.r.Note("C19.3: %d decoder tags with an encoder counterpart examined", ntag)
 	c19FieldCoverage(c)
 	wrapAliasing(c, "C19.5", c19Pkgs)
 	var rels []string
